@@ -13,3 +13,25 @@ func (in *Inbox) VerifStatus() int32 { return atomic.LoadInt32(&in.procStatus) }
 
 // VerifLen returns the number of queued envelopes.
 func (in *Inbox) VerifLen() int64 { return in.rb.Len() }
+
+// VerifIdle reports whether the actor registered under pid is at rest: not
+// registered any more, or its inbox idle with an empty ring (a worker that is
+// running, restarting or sleeping keeps the status at running).
+func VerifIdle(e *Engine, pid *PID) bool {
+	proc := e.Registry.get(pid)
+	if proc == nil {
+		return true
+	}
+	p, ok := proc.(*process)
+	if !ok {
+		return true
+	}
+	in, ok := p.inbox.(*Inbox)
+	if !ok {
+		return true
+	}
+	return atomic.LoadInt32(&in.procStatus) == idle && in.rb.Len() == 0
+}
+
+// VerifEventStream returns the PID of the engine's event stream actor.
+func VerifEventStream(e *Engine) *PID { return e.eventStream }
